@@ -11,16 +11,17 @@ open SuppModel.Den
     definitions supp associates with `x` at `r` — reads in loop bodies, loop tests (evaluated again after the body),
     handlers, else / finally branches included. -/
 theorem C02_sound (ks : List Ident) (s : Stmt) (σ σr : State) (r : RId) (x : Ident) (T F : Tbl) (d : Site)
-    (hfrag : inC02 s = true) (hown : r ∉ nestedReads s)
+    (hfrag : inC02 s = true) (hown : r ∉ nestedReads s) (hlate : lateRead s r x = false)
     (hreach : Reach s σ r σr)
     (hT : ∀ d', σ x = some d' → some d' ∈ T.get x)
     (hx : σr x = some d) :
     some d ∈ (at_ ks s r T F).get x := by
-  rcases (exec_good false x hreach).1 hfrag with ⟨h, _⟩ | ⟨r', h, hs⟩
+  rcases (exec_good true false x hreach).1 hfrag (.inl rfl) with ⟨h, _⟩ | ⟨r', h, hs⟩
   · cases h
   · cases h
     rw [at_normal ks s r T F x (some d) hown]
-    rcases hs d hx with h | ⟨h1, h2⟩
+    rcases hs (some d) (by simp) hx with h | h | ⟨h1, h2⟩
+    · rw [hlate] at h; cases h
     · exact .inl h
     · exact .inr ⟨h1, hT d h2⟩
 
@@ -31,9 +32,9 @@ theorem C02_table_sound (ks : List Ident) (s : Stmt) (σ σ' : State) (x : Ident
     (hfrag : inC02 s = true) (hexec : Exec s σ .normal σ')
     (hT : ∀ d', σ x = some d' → some d' ∈ T.get x) (hx : σ' x = some d) :
     some d ∈ (A ks s T).get x := by
-  rcases (exec_good false x hexec).1 hfrag with ⟨_, hs⟩ | ⟨r', h, _⟩
+  rcases (exec_good true false x hexec).1 hfrag (.inl rfl) with ⟨_, hs⟩ | ⟨r', h, _⟩
   · rw [A_normal]
-    rcases hs d hx with h | ⟨h1, h2⟩
+    rcases hs (some d) (by simp) hx with h | ⟨h1, h2⟩
     · exact .inl h
     · exact .inr ⟨h1, hT d h2⟩
   · cases h
@@ -41,7 +42,7 @@ theorem C02_table_sound (ks : List Ident) (s : Stmt) (σ σ' : State) (x : Ident
 /-- executions of the fragment never end in a jump or an uncaught exception -/
 theorem C02_outcomes (s : Stmt) (σ σ' : State) (o : Outcome) (hfrag : inC02 s = true) (hexec : Exec s σ o σ') :
     o = .normal ∨ ∃ r, o = .stop r := by
-  rcases (exec_good false "" hexec).1 hfrag with ⟨h, _⟩ | ⟨r', h, _⟩
+  rcases (exec_good true false "" hexec).1 hfrag (.inl rfl) with ⟨h, _⟩ | ⟨r', h, _⟩
   · exact .inl h
   · exact .inr ⟨r', h⟩
 
@@ -51,10 +52,10 @@ def markedUsed (ks : List Ident) (s : Stmt) (T F : Tbl) (d : Site) : Prop :=
 
 /-- a binding some execution reads is marked used: never reported as 'Unused name' / 'Unused import' -/
 theorem C02_no_false_unused (ks : List Ident) (s : Stmt) (σ σr : State) (r : RId) (x : Ident) (T F : Tbl) (d : Site)
-    (hfrag : inC02 s = true) (hown : r ∉ nestedReads s) (hread : (r, x) ∈ readsOf s)
+    (hfrag : inC02 s = true) (hown : r ∉ nestedReads s) (hlate : lateRead s r x = false) (hread : (r, x) ∈ readsOf s)
     (hreach : Reach s σ r σr) (hT : ∀ d', σ x = some d' → some d' ∈ T.get x) (hx : σr x = some d) :
     markedUsed ks s T F d :=
-  ⟨r, x, hread, C02_sound ks s σ σr r x T F d hfrag hown hreach hT hx⟩
+  ⟨r, x, hread, C02_sound ks s σ σr r x T F d hfrag hown hlate hreach hT hx⟩
 
 /-! non-vacuity -/
 
@@ -82,5 +83,13 @@ def exTry : Stmt := .tryx false true (.bind "a" 1) (.hcons .skip .skip (.read "a
 example : inC02 exTry = true := by decide
 example : Reach exTry State.init 3 (State.init.upd "a" 1) := .tryX2 .bind (.hMatch .skip .skip .readStop)
 example : (at_ [] exTry 3 Tbl.empty Tbl.empty).get "a" = [none, some 1] := by decide
+
+/-- a comprehension `[… i … for i in a]`: the element's read of the comprehension variable -/
+def exComp : Stmt := .comp (.read "a" 1) (.cfor (.bind "i" 1) .skip (.read "i" 2))
+example : inC02 exComp = true := by decide
+example : lateRead exComp 2 "i" = false := by decide
+example : Reach exComp State.init 2 ((State.hide ["i"] State.init).upd "i" 1) :=
+  .compS2 .read (.iterS2 .bind .skip .readStop)
+example : (at_ [] exComp 2 Tbl.empty Tbl.empty).get "i" = [some 1] := by decide
 
 end SuppModel.Props.C02
